@@ -476,6 +476,9 @@ EPOCH_NS = 1790000000 * 10 ** 9      # a modification time of today, in nanoseco
 
 
 ARG_PAIRS = [  # (first build, second build, same JSON value?)
+    # keys that collide once stringified: the LAST one wins (json.dumps writes both, json.loads keeps the last)
+    ({8: 'a', '8': 'b'}, {'8': 'b'}, True), ({8: 'a', '8': 'b'}, {'8': 'a'}, False), ({'k': {None: 1, 'null': 2}}, {'k': {'null': 2}}, True),
+    ({True: 1, 'true': 2}, {'true': 1}, False), ({'1.5': 'x', 1.5: 'y'}, {'1.5': 'y'}, True),
     (1, 1.0, True), (1, True, False), (0, False, False), ([1, 2], (1, 2), True), ([1, 2], [2, 1], False),
     ({'a': 1, 'b': 2}, {'b': 2, 'a': 1}, True), ({1: 'x'}, {'1': 'x'}, True), ({'a': 1}, {'a': 1, 'b': None}, False),
     (None, 0, False), ('1', 1, False), (2 ** 70, float(2 ** 70), True), (-0.0, 0, True), ([], {}, False), ([[]], [()], True),
@@ -490,15 +493,16 @@ def scen_identity(rng, index=None):
     """the same call in consecutive builds with arguments that are / are not the same JSON value, as
     positional argument or as keyword argument, for build_file and subbuild"""
     k = rng.randrange(10 ** 6) if index is None else index
-    a, b, _same = ARG_PAIRS[k % len(ARG_PAIRS)]
     p = rng.choice(PATHS2)
     n = len(ARG_PAIRS)
-    if k % (5 * n) < 4 * n:
-        mode = (k // n) % 2                   # 0: keyword, 1: positional
-        use_bf = (k // (2 * n)) % 2 == 0
+    a, b, _same = ARG_PAIRS[(k // 5) % n]
+    sel = k % 5
+    if sel < 4:
+        mode = sel // 2                       # 0: keyword, 1: positional
+        use_bf = sel % 2 == 0
     else:
         mode = 2                              # positional 'opt', v against keyword opt=v
-        use_bf = k % 2 == 0
+        use_bf = (k // 5) % 2 == 0
 
     def call(v, first=True):
         if mode == 2:
